@@ -42,6 +42,8 @@ def process_setup():
     sys.unraisablehook = lambda *a: None
     gc.disable()
     gc.freeze()
+    from . import detorder
+    detorder.install()
 
 
 _runs_since_gc = [0]
